@@ -852,6 +852,264 @@ def cached_search(ctx, rng, budget):
 
 
 # ---------------------------------------------------------------------------
+# histories with data-dependent arguments: after ANY earlier legitimate request
+# ---------------------------------------------------------------------------
+def history_search(ctx, rng, budget):
+    """cached-element-equals-defining-integral, generalised: the elements returned
+    by a caching front end (observation = a plain forward / basis request) must
+    equal the defining integrals after any earlier legitimate request on the same
+    module — requests that differ in the data-dependent arguments (rbasex: valid
+    masks with empty radii, reg kinds, direction; daun: reg kinds / strength /
+    direction; basex: reg / correction / dr / direction; dasch: method / size),
+    in memory and through a basis_dir, as ordered pairs and a sample of triples.
+    Sizes are small and EVERY element of the observed matrices is compared with a
+    reference matrix built once per parameter set by quadrature."""
+    import contextlib
+    import io
+    import shutil
+    import tempfile
+    from oracle import c09_quad as Q
+    import abel, abel.dasch, abel.daun, abel.rbasex, abel.basex
+    hits = []
+    n_eval = 0
+    n_hist = 0
+    distinct = set()
+    worst = {}
+    failed_hist = []
+    refs = {}
+
+    def run_hist(lines):
+        T = tempfile.mkdtemp(prefix='c09-', dir='/var/tmp')
+        ns = dict(abel=abel, np=np, T=T)
+        try:
+            with contextlib.redirect_stdout(io.StringIO()):
+                exec('\n'.join(lines), ns)
+        except Exception as e:
+            failed_hist.append((lines, '%s: %s' % (type(e).__name__, e)))
+            ns = None
+        finally:
+            for m in (abel.dasch, abel.daun, abel.rbasex, abel.basex):
+                try:
+                    m.cache_cleanup()
+                except Exception:
+                    pass
+            shutil.rmtree(T, ignore_errors=True)
+        return ns
+
+    def ref(key, build):
+        if key not in refs:
+            refs[key] = build()
+        return refs[key]
+
+    def compare(tag, lines, what, got, R, TOL, mask, elem_expr, ref_expr, cls):
+        """got, R, TOL, mask: arrays of one shape; elem_expr/ref_expr: functions of the index -> source text"""
+        nonlocal n_eval
+        n_eval += int(mask.sum())
+        distinct.add((tag, cls))
+        with np.errstate(all='ignore'):
+            ratio = np.where(mask, np.abs(got - R) / TOL, 0.0)
+        ratio = np.where(np.isfinite(ratio), ratio, np.inf)
+        worst[tag.split(':')[0] + '_history'] = max(worst.get(tag.split(':')[0] + '_history', 0.0), float(ratio.max()) if ratio.size else 0.0)
+        if ratio.size and ratio.max() > 1:
+            ix = np.unravel_index(int(np.argmax(ratio)), ratio.shape)
+            g, r_, t = float(got[ix]), float(R[ix]), float(TOL[ix])
+            w = what + ' element %s' % (tuple(int(x) for x in ix),)
+            snip = HIST_SNIPPET % dict(tools=os.path.join(vlib.VERIF, 'tools'), setup='\n'.join('        ' + l for l in lines),
+                                       got=elem_expr(ix), ref=ref_expr(ix), what=w, tol=t)
+            hits.append(Hit('cached-element-equals-defining-integral', 'C09:history:%s:%s' % (tag, cls),
+                            w + ': returned %r, defining integral %r (|diff| %.3g > tol %.3g; %d of %d elements differ)'
+                            % (g, r_, abs(g - r_), t, int((ratio > 1).sum()), int(mask.sum())),
+                            snip, dict(history=lines, element=elem_expr(ix), value=g, quadrature=r_, tol=t)))
+
+    def histories(clean, ops, obs, k_triples):
+        """ordered pairs (memory and through the disk) and a sample of triples"""
+        out = []
+        for la, a in ops:
+            out.append(('mem:' + la, [clean] + a + obs))
+            out.append(('disk:' + la, [clean] + a + [clean] + obs))
+        for _ in range(k_triples):
+            (la, a), (lb, b) = ops[int(rng.integers(len(ops)))], ops[int(rng.integers(len(ops)))]
+            if rng.random() < 0.5:
+                out.append(('mem3:%s,%s' % (la, lb), [clean] + a + b + obs))
+            else:
+                out.append(('disk3:%s,%s' % (la, lb), [clean] + a + [clean] + b + obs))
+        return out
+
+    # ---- rbasex -------------------------------------------------------------------
+    for Rmax, order, odd in ((20, 2, False), (16, 3, True)):
+        orders = list(range(0, order + 1, 1 if odd else 2))
+
+        def build():
+            Rf = np.zeros((len(orders), Rmax + 1, Rmax + 1)); Tl = np.ones_like(Rf); Mk = np.zeros_like(Rf, dtype=bool)
+            for ix, n in enumerate(orders):
+                for Rc in range(Rmax + 1):
+                    for r in range(Rmax + 1):
+                        if r <= Rc:
+                            v, qe = Q.rbasex_entry(n, Rc, r)
+                            Rf[ix, r, Rc] = v
+                            Tl[ix, r, Rc] = 1e-12 * max(1.0, Rc) ** 2 + 1e-11 + 10 * qe
+                        else:
+                            Tl[ix, r, Rc] = 1e-14
+                        Mk[ix, r, Rc] = not (n > 0 and Rc == 0 and r == 0)     # [0,0] of orders > 0 is a convention
+            return Rf, Tl, Mk
+        Rf, Tl, Mk = ref(('rbasex', Rmax, order, odd), build)
+        g = "abel.rbasex.get_bs_cached(%d, %d, %r, " % (Rmax, order, odd)
+        vdef = "V = np.ones(%d, dtype=bool); V[[5, %d]] = False" % (Rmax + 1, Rmax - 3)
+        ops = [('fwd', [g + "direction='forward', basis_dir=T)"]),
+               ('fwd-masked', [vdef, g + "direction='forward', valid=V, basis_dir=T)"]),
+               ('inv', [g + "direction='inverse', basis_dir=T)"]),
+               ('inv-masked', [vdef, g + "direction='inverse', valid=V, basis_dir=T)"]),
+               ('inv-L2-masked', [vdef, g + "direction='inverse', reg=('L2', 1.0), valid=V, basis_dir=T)"]),
+               ('inv-diff-masked', [vdef, g + "direction='inverse', reg=('diff', 1.0), valid=V, basis_dir=T)"]),
+               ('inv-SVD-masked', [vdef, g + "direction='inverse', reg=('SVD', 0.1), valid=V, basis_dir=T)"]),
+               ('inv-L2', [g + "direction='inverse', reg=('L2', 1.0), basis_dir=T)"]),
+               ('other-size', ["abel.rbasex.get_bs_cached(%d, %d, %r, direction='forward', basis_dir=T)" % (Rmax + 6, order + 1, True)])]
+        if not odd or order <= 1:
+            ops.append(('inv-pos-masked', [vdef, g + "direction='inverse', reg='pos', valid=V, basis_dir=T)"]))
+        obs = ["M = np.array(" + g + "direction='forward', basis_dir=T))"]
+        for tag, lines in histories("abel.rbasex.cache_cleanup()", ops, obs, 2 * budget):
+            ns = run_hist(lines)
+            n_hist += 1
+            if ns is None:
+                continue
+            M = np.asarray(ns['M'])
+            if M.shape != Rf.shape:
+                hits.append(Hit('cached-shape', 'C09:history:rbasex:%s:shape' % tag.split(':')[0],
+                                'abel.rbasex.get_bs_cached(%d, %d, %r, forward) after [%s] returned shape %r' % (Rmax, order, odd, tag, M.shape),
+                                'import sys; sys.exit(1)', dict(history=lines)))
+                continue
+            compare('rbasex:%s' % tag, lines,
+                    "abel.rbasex.get_bs_cached(%d, %d, %r, direction='forward') after [%s]: [order index, r, R]" % (Rmax, order, odd, tag),
+                    M, Rf, Tl, Mk, lambda ix: 'M[%d][%d, %d]' % ix,
+                    lambda ix: 'Q.rbasex_entry(%d, %d, %d)[0]' % (orders[ix[0]], ix[2], ix[1]), '%d-%d-%s' % (Rmax, order, odd))
+    # ---- daun -----------------------------------------------------------------------
+    for deg in range(4):
+        n = 16
+
+        def build():
+            Rf = np.zeros((n, n)); Tl = np.ones((n, n))
+            for j in range(n):
+                for i in range(n):
+                    v, qe = Q.daun_entry(n, deg, j, i)
+                    Rf[j, i] = v
+                    Tl[j, i] = 1e-13 * float(n if deg == 3 else j + 1) ** (deg + 1) + 1e-11 + 10 * qe
+            return Rf, Tl
+        Rf, Tl = ref(('daun', n, deg), build)
+        g = "abel.daun.get_bs_cached(%d, %d, " % (n, deg)
+        ops = []
+        for rt, st in ((None, 0), ('diff', 1.0), ('L2', 1.0), ('L2c', 1.0), ('nonneg', 0)):
+            for d in ('inverse', 'forward'):
+                ops.append(('%s-%s' % (d[:3], rt), [g + "reg_type=%r, strength=%r, direction=%r, basis_dir=T)" % (rt, st, d)]))
+        ops.append(('larger', ["abel.daun.get_bs_cached(%d, %d, reg_type='L2c', strength=0.5, direction='inverse', basis_dir=T)" % (n + 8, deg)]))
+        ops.append(('smaller', ["abel.daun.get_bs_cached(%d, %d, direction='forward', basis_dir=T)" % (n - 6, deg)]))
+        obs = ["M = np.array(" + g + "direction='forward', basis_dir=T))"]
+        for tag, lines in histories("abel.daun.cache_cleanup()", ops, obs, 2 * budget):
+            ns = run_hist(lines)
+            n_hist += 1
+            if ns is None:
+                continue
+            M = np.asarray(ns['M'])
+            if M.shape != (n, n):
+                hits.append(Hit('cached-shape', 'C09:history:daun%d:shape' % deg, 'abel.daun.get_bs_cached(%d, %d, forward) after [%s] returned shape %r'
+                                % (n, deg, tag, M.shape), 'import sys; sys.exit(1)', dict(history=lines)))
+                continue
+            compare('daun%d:%s' % (deg, tag), lines, "abel.daun.get_bs_cached(%d, %d, direction='forward') after [%s]: [j, i]" % (n, deg, tag),
+                    M, Rf, Tl, np.ones((n, n), bool), lambda ix: 'M[%d, %d]' % ix,
+                    lambda ix: 'Q.daun_entry(%d, %d, %d, %d)[0]' % (n, deg, ix[0], ix[1]), 'deg%d' % deg)
+    # ---- basex ----------------------------------------------------------------------
+    n, sigma = 22, 1.0
+    nbf = abel.basex._nbf(n, sigma)
+
+    def build():
+        Rm = np.zeros((n, nbf)); Tm = np.ones((n, nbf)); Rc_ = np.zeros((n, nbf))
+        for i in range(n):
+            for k in range(nbf):
+                v, qe = Q.basex_chi(k, sigma, i)
+                Rm[i, k] = v
+                Tm[i, k] = (1e-9 + 4e-15 * k * k * math.log(k * k + 2.0)) * max(abs(v), sigma) + 10 * qe
+                Rc_[i, k] = Q.basex_rho(k, sigma, i)
+        return Rm, Tm, Rc_
+    Rm, Tm, Rc_ = ref(('basex', n, sigma), build)
+    g = "abel.basex.get_bs_cached(%d, %r, " % (n, sigma)
+    ops = []
+    for reg in (1.0, 100.0):
+        for cor in (False, True):
+            for dr in (1.0, 0.5):
+                d = 'inverse' if (reg + cor + dr) % 2 < 1 else 'forward'
+                ops.append(('%s-reg%g-cor%d-dr%g' % (d[:3], reg, cor, dr),
+                            [g + "reg=%r, correction=%r, dr=%r, basis_dir=T, verbose=False, direction=%r)" % (reg, cor, dr, d)]))
+    ops.append(('larger', ["abel.basex.get_bs_cached(%d, %r, reg=1.0, correction=True, dr=0.5, basis_dir=T, verbose=False)" % (n + 9, sigma)]))
+    ops.append(('smaller', ["abel.basex.get_bs_cached(%d, %r, reg=1.0, correction=False, basis_dir=T, verbose=False)" % (n - 8, sigma)]))
+    obs = [g + "reg=1.0, correction=False, basis_dir=T, verbose=False, direction='inverse')",
+           "M, Mc = [np.array(x) for x in abel.basex._bs]"]
+    for tag, lines in histories("abel.basex.cache_cleanup()", ops, obs, 2 * budget):
+        ns = run_hist(lines)
+        n_hist += 1
+        if ns is None:
+            continue
+        M, Mc = np.asarray(ns['M']), np.asarray(ns['Mc'])
+        if M.shape != (n, nbf) or Mc.shape != (n, nbf):
+            hits.append(Hit('cached-shape', 'C09:history:basex:shape', 'abel.basex basis after [%s] has shapes %r %r' % (tag, M.shape, Mc.shape),
+                            'import sys; sys.exit(1)', dict(history=lines)))
+            continue
+        compare('basex:%s' % tag, lines, 'abel.basex.get_bs_cached(%d, %r) after [%s]: projected basis M[i, k]' % (n, sigma, tag),
+                M, Rm, Tm, np.ones((n, nbf), bool), lambda ix: 'M[%d, %d]' % ix,
+                lambda ix: 'Q.basex_chi(%d, %r, %d)[0]' % (ix[1], sigma, ix[0]), 'chi')
+        compare('basex:%s' % tag, lines, 'abel.basex.get_bs_cached(%d, %r) after [%s]: basis functions Mc[i, k]' % (n, sigma, tag),
+                Mc, Rc_, 1e-9 * np.maximum(Rc_, 1e-300) + 1e-300, np.ones((n, nbf), bool), lambda ix: 'Mc[%d, %d]' % ix,
+                lambda ix: 'Q.basex_rho(%d, %r, %d)' % (ix[1], sigma, ix[0]), 'rho')
+    # ---- dasch ----------------------------------------------------------------------
+    n = 24
+    for method in ('two_point', 'three_point', 'onion_peeling'):
+        def build():
+            if method == 'onion_peeling':
+                W = np.array([[Q.los(*Q.daun_f(0, j)[:1], float(i), *Q.daun_f(0, j)[1:])[0] for j in range(n)] for i in range(n)])
+                return W, None, None
+            Rf = np.zeros((n, n)); Tl = np.ones((n, n)); Mk = np.ones((n, n), bool)
+            for i in range(n):
+                for j in range(n):
+                    if i == 0 and method == 'two_point' and j < 2:
+                        Rf[i, j] = (2 / math.pi, math.log(2.0) / math.pi - 2 / math.pi)[j]      # documented axis convention
+                        Tl[i, j] = 1e-14
+                        continue
+                    v, qe = Q.dasch_entry(method, n, i, j)
+                    Rf[i, j] = v
+                    Tl[i, j] = 1e-11 + 10 * qe
+            return Rf, Tl, Mk
+        Rf, Tl, Mk = ref(('dasch', method, n), build)
+        others = [m for m in ('two_point', 'three_point', 'onion_peeling') if m != method]
+        ops = [('other-method', ["abel.dasch.get_bs_cached(%r, %d, basis_dir=T)" % (others[0], n + 10)]),
+               ('other-method-smaller', ["abel.dasch.get_bs_cached(%r, %d, basis_dir=T)" % (others[1], n - 5)]),
+               ('larger', ["abel.dasch.get_bs_cached(%r, %d, basis_dir=T)" % (method, n + 16)]),
+               ('smaller', ["abel.dasch.get_bs_cached(%r, %d, basis_dir=T)" % (method, n - 9)])]
+        obs = ["M = np.array(abel.dasch.get_bs_cached(%r, %d, basis_dir=T))" % (method, n)]
+        for tag, lines in histories("abel.dasch.cache_cleanup()", ops, obs, budget):
+            ns = run_hist(lines)
+            n_hist += 1
+            if ns is None:
+                continue
+            M = np.asarray(ns['M'])
+            if M.shape != (n, n):
+                hits.append(Hit('cached-shape', 'C09:history:%s:shape' % method, 'abel.dasch.get_bs_cached(%r, %d) after [%s] returned shape %r'
+                                % (method, n, tag, M.shape), 'import sys; sys.exit(1)', dict(history=lines)))
+                continue
+            what = 'abel.dasch.get_bs_cached(%r, %d) after [%s]' % (method, n, tag)
+            if method == 'onion_peeling':
+                compare('onion_peeling:%s' % tag, lines, what + ': (W.D)[a, b], W = ring projections', Rf @ M, np.eye(n), np.full((n, n), 1e-10 * n),
+                        np.ones((n, n), bool), lambda ix: 'Q.onion_products(M, %d, %d)[0]' % ix, lambda ix: repr(float(ix[0] == ix[1])), 'WD')
+            else:
+                compare('%s:%s' % (method, tag), lines, what + ': D[i, j]', M, Rf, Tl, Mk, lambda ix: 'M[%d, %d]' % ix,
+                        lambda ix: ('Q.dasch_entry(%r, %d, %d, %d)[0]' % (method, n, ix[0], ix[1])) if not (method == 'two_point' and ix[0] == 0 and ix[1] < 2)
+                        else repr(float(Rf[ix])), 'D')
+    if failed_hist:
+        ctx.notes.append('histories whose front end raised (skipped, not a C09 clause): %d of %d, first: %r'
+                         % (len(failed_hist), n_hist, failed_hist[0]))
+    ctx.notes.append('history search: %d histories (ordered pairs in memory / through basis_dir, sampled triples), every element compared'
+                     % n_hist)
+    return hits, n_eval, len(distinct), worst
+
+
+# ---------------------------------------------------------------------------
 def run(ctx):
     warnings.simplefilter('ignore')
     rng = np.random.default_rng(ctx.seed)
@@ -897,6 +1155,13 @@ def run(ctx):
     worst.update(w2)
     notes.append('search through get_bs_cached (memory / disk histories, verbose off and on): %d evaluations in %.0fs'
                  % (n2, time.time() - t0))
+    t0 = time.time()
+    h3, n3, d3, w3 = history_search(ctx, rng, budget)
+    hits += h3
+    n_eval += n3
+    n_distinct += d3
+    worst.update(w3)
+    notes.append('history search (data-dependent arguments): %d element comparisons in %.0fs' % (n3, time.time() - t0))
     if os.environ.get('C09_SELFTEST_GOALS_FIRST'):
         hits = []        # self-test switch: let the Coq goals see the mutant before the search reports it
     # 2b. translation validation + 4. instances, inside Coq (skipped when the search already
